@@ -14,6 +14,7 @@
 import LdkModel.Proofs.Secrets
 import LdkModel.Proofs.RaaGate
 import LdkModel.Proofs.HolderGate
+import LdkModel.Generated.RaaRelease
 import LdkModel.Props.ChanProto
 namespace Ldk.C05
 open Ldk.Secrets
@@ -573,6 +574,89 @@ example : (HolderGate.run (HolderGate.Sys.init 10) [.csRecv false, .sign, .compl
 example : isPreCloseStep .commitmentSecret = true ∧ isPreCloseStep .paymentPreimage = false := by decide
 
 end HolderGate
+
+/-! ### Which secret a revoke_and_ack and its retransmission release
+    `currentTransactionNumber`, `advanceNext`, `releaseIdx`, `ourCommitmentTransaction`, `requiredRevoke` are GENERATED from
+    HolderCommitmentPoint::{current_transaction_number, advance}, FundedChannel::get_last_revoke_and_ack and channel_reestablish
+    (tools/gen_raa_release.py -> Generated/RaaRelease.lean). Commitment numbers count DOWN: "later" = smaller. -/
+
+section RaaRelease
+open Ldk.RaaRelease
+
+/-- next_transaction_number after `k` accepted commitment_signed (each one advances the point once: pinned) -/
+def nextAfter (next0 : Nat) : Nat → Nat
+  | 0 => next0
+  | k + 1 => advanceNext (nextAfter next0 k)
+
+theorem nextAfter_eq (next0 k : Nat) : nextAfter next0 k = next0 - k := by
+  induction k with
+  | zero => rfl
+  | succ k ih => simp only [nextAfter, advanceNext, ih]; omega
+
+/-- **release_is_just_superseded** — for EVERY holder commitment point: the index that get_last_revoke_and_ack hands to
+    release_commitment_secret after the point was advanced is exactly the number that was CURRENT before the advance (the
+    commitment just superseded), i.e. one above the new current number — never the current commitment or a later one. -/
+theorem release_is_just_superseded (next : Nat) (h : 0 < next) :
+    releaseIdx (advanceNext next) = currentTransactionNumber next ∧
+    releaseIdx (advanceNext next) = currentTransactionNumber (advanceNext next) + 1 := by
+  refine ⟨?_, ?_⟩ <;> simp only [releaseIdx, advanceNext, currentTransactionNumber] <;> omega
+
+example : releaseIdx (advanceNext 100) = 101 ∧ currentTransactionNumber 100 = 101 := by decide
+
+/-- **releases_descend_by_one** — over a whole history: the (k+1)-th revoke_and_ack of a channel releases the secret of
+    `current0 - k` (current0 = the first current number), so consecutive releases go down by exactly one and no index is
+    released twice or skipped.  (`k + 2 ≤ next0`: the u64 subtraction of `advance` does not underflow — 2^48 updates.) -/
+theorem releases_descend_by_one (next0 k : Nat) (h : k + 2 ≤ next0) :
+    releaseIdx (nextAfter next0 (k + 1)) = currentTransactionNumber next0 - k ∧
+    releaseIdx (nextAfter next0 (k + 2)) + 1 = releaseIdx (nextAfter next0 (k + 1)) := by
+  refine ⟨?_, ?_⟩ <;> simp only [nextAfter_eq, releaseIdx, currentTransactionNumber] <;> omega
+
+example : (List.range 4).map (fun k => releaseIdx (nextAfter 99 (k + 1))) = [100, 99, 98, 97] := by decide
+
+/-- **retransmission_repeats_last_release** — on a fresh channel after `k` accepted commitment_signed
+    (next_transaction_number started at INITIAL_COMMITMENT_NUMBER - 1), for EVERY `next_remote_commitment_number` the peer may
+    send in channel_reestablish: if the GENERATED required_revoke decision says "retransmit", then the peer lacks exactly our
+    last revoke_and_ack (k = msg + 1), the retransmitted secret is the one the peer asks for (INITIAL - msg), it is the SAME
+    index the original revoke_and_ack released, and it is one above the current holder commitment number — never the current
+    one or a later one.  If the decision says "none" the peer has all k revocations. -/
+theorem retransmission_repeats_last_release (k msgN : Nat) (hk : k + 1 ≤ initialCommitmentNumber - 1) :
+    let next := nextAfter (initialCommitmentNumber - 1) k
+    (requiredRevoke msgN (ourCommitmentTransaction next) = .retransmit →
+      k = msgN + 1 ∧ releaseIdx next = initialCommitmentNumber - msgN ∧
+      releaseIdx next = releaseIdx (advanceNext (nextAfter (initialCommitmentNumber - 1) (k - 1))) ∧
+      releaseIdx next = currentTransactionNumber next + 1) ∧
+    (requiredRevoke msgN (ourCommitmentTransaction next) = .none → msgN = k) := by
+  have hI : initialCommitmentNumber = 281474976710655 := by simp [initialCommitmentNumber]
+  intro next
+  have hn : next = initialCommitmentNumber - 1 - k := nextAfter_eq _ _
+  have hour : ourCommitmentTransaction next = k := by
+    simp only [ourCommitmentTransaction, currentTransactionNumber, hn]; omega
+  rw [hour]
+  constructor
+  · intro h
+    simp only [requiredRevoke] at h
+    split at h
+    · cases h
+    · split at h
+      · rename_i h2
+        have h2' : msgN + 1 = k := by simpa using h2
+        refine ⟨h2'.symm, ?_, ?_, ?_⟩
+        · simp only [releaseIdx, hn]; omega
+        · simp only [releaseIdx, advanceNext, nextAfter_eq, hn]; omega
+        · simp only [releaseIdx, currentTransactionNumber]
+      · cases h
+  · intro h
+    simp only [requiredRevoke] at h
+    split at h
+    · rename_i h1; simpa using h1
+    · split at h <;> cases h
+
+example : requiredRevoke 2 (ourCommitmentTransaction (nextAfter (initialCommitmentNumber - 1) 3)) = .retransmit ∧
+    releaseIdx (nextAfter (initialCommitmentNumber - 1) 3) = initialCommitmentNumber - 2 := by decide
+example : requiredRevoke 3 (ourCommitmentTransaction (nextAfter (initialCommitmentNumber - 1) 3)) = .none ∧
+    requiredRevoke 5 (ourCommitmentTransaction (nextAfter (initialCommitmentNumber - 1) 3)) = .error := by decide
+
+end RaaRelease
 
 /-! ### Channel-level theorems (integrator)
     `revoke_only_after_newer_signed`, `never_sign_revoked_holder`, `at_most_one_outstanding`,
